@@ -11,13 +11,14 @@ RULE = ("S-syn listings with planted runs of identical instructions and repeated
         "with operands and for $and/$or/$not/$and_any_order groups, also $or groups with times inside operand lists), bounds chosen at the edges of the planted run "
         "(r-1, r, r+1); deterministic group probes (r alternating repetitions of a two-instruction group of every kind, framed by "
         "markers, bounds around r); an exhaustive bounds grid, identical at every seed (8 element kinds x run length 0..4 x every integer / {min,max} / "
-        "min-only / max-only form with bounds <= 5, ground truth by construction: found iff min <= r <= max, the hit covering the whole run). Two oracles per execution: (1) R-dsl differential on found / leftmost start / hit windows; "
+        "min-only / max-only form with bounds <= 5; a nested-times stratum (a repeated group around one repeated element, any-order groups with times whose "
+        "members have variable length), judged by R-dsl; ground truth by construction: found iff min <= r <= max, the hit covering the whole run). Two oracles per execution: (1) R-dsl differential on found / leftmost start / hit windows; "
         "(2) model-free twin: the same rule with every top-level repeated element written out n times (or as an $or of the "
         "written-out lengths when max-min<=3), executed on the real code and compared on verdict and first address. "
         "Non-trivial = model finds the rule or the case is one mutation from a found case; distinct = (rule, listing).")
 FLOOR = {"quick": 300, "thorough": 4000}
 ANCHOR_HINTS = ["time_type_builder", "pattern_node_builder", "node_branch_root", "mnemonic_and_operand"]
-REQUIRED_EVENTS = ["hits_located", "twin_compared", "bounds_grid_cells"]
+REQUIRED_EVENTS = ["hits_located", "twin_compared", "bounds_grid_cells", "nested_times_cells"]
 QUIRKS = []
 
 
@@ -258,11 +259,71 @@ def replay_grid(ctx, case):
         ctx.disagreement(case, f"bounds grid cell: expected found={case['want']} covering {case['covered']} instructions, got {str(res[:2])[:160]}")
 
 
+def nested_times_stratum(ctx, d):
+    """Repetition of a repetition, identical at every seed and judged by R-dsl: a group with `times` around a single element that has
+    `times` itself (the reachable run lengths have gaps: (nop{2}){1,2} accepts 2 or 4, never 3), and $and_any_order groups with `times`
+    whose members have variable length and overlap (the split of the first repetition must be allowed to give instructions back)."""
+    from jv import dsl, listing as L
+    cases = []
+    inner_forms = [2, 3, {"min": 2, "max": 3}, {"min": 1, "max": 2}]
+    outer_forms = [{"min": 1, "max": 2}, {"min": 0, "max": 1}, {"min": 2, "max": 3}, 2, {"min": 1, "max": 3}]
+    for kind in ("$and", "$or", "$and_any_order"):
+        for a in inner_forms:
+            for t in outer_forms:
+                cases.append(("single", kind, a, t))
+    for form in range(6):
+        cases.append(("anyorder", form, None, None))
+    for i, (what, kind, a, t) in enumerate(cases):
+        if i % ctx.nshards != ctx.shard:
+            continue
+        if what == "single":
+            for k in range(0, 8):
+                insts, addr = [], 0x401000
+                for m in ["push"] + ["nop"] * k + ["ret", "nop", "nop"]:
+                    insts.append(L.SInst(addr, m, [], None, None, 1))
+                    addr += 1
+                prep = dsl.Prepared(d.ws, insts, ctx.rng)
+                ctx.ran()
+                if not prep.verify(d.ws):
+                    ctx.inconc("parser disagreement on synthetic listing")
+                    continue
+                d.prep, d.style = prep, f"nested-times/{kind[1:]}"
+                d.run_pattern(["push", {kind: [{"nop": {"times": a}}], "times": t}, "ret"], "base", True)
+                ctx.event("nested_times_cells")
+        else:
+            form = kind
+            seqs = [["push"] * 4 + ["call"], ["push", "push", "pop", "push", "call"], ["mov", "movl", "movl", "movl", "ret"], ["mov", "mov", "movl", "mov", "movl", "ret"],
+                    ["push"] * 3 + ["call"], ["push"] * 5 + ["call"]]
+            pats = [[{"$and_any_order": [{"push": {"times": {"min": 1, "max": 2}}}, {"$not": ["call"]}], "times": 2}, "call"],
+                    [{"$and_any_order": [{"mov": {"times": {"min": 1, "max": 2}}}, "movl"], "times": 2}],
+                    [{"$and_any_order": [{"push": {"times": {"min": 1, "max": 3}}}, "push"], "times": {"min": 1, "max": 2}}, "call"],
+                    [{"$and_any_order": [{"mov": {"times": {"min": 0, "max": 2}}}, "movl"], "times": {"min": 2, "max": 3}}, "ret"],
+                    [{"$or": [{"push": {"times": {"min": 1, "max": 2}}}, {"$and": ["push", "push", "push"]}], "times": 2}, "call"],
+                    [{"$and": [{"push": {"times": {"min": 1, "max": 2}}}, {"$not": ["call"]}], "times": 2}, "call"]]
+            pat = pats[form]
+            for seq in seqs:
+                insts, addr = [], 0x401000
+                for m in ["ret"] + seq:
+                    insts.append(L.SInst(addr, m, [], None, None, 1))
+                    addr += 1
+                prep = dsl.Prepared(d.ws, insts, ctx.rng)
+                ctx.ran()
+                if not prep.verify(d.ws):
+                    continue
+                d.prep, d.style = prep, "nested-times/any-order-variable-members"
+                d.run_pattern(pat, "base", True)
+                ctx.event("nested_times_cells")
+
+
 def run_shard(ctx):
     bounds_grid_stratum(ctx, real.Workspace())
     d = drive.Driver(ctx, feat, flags="random", styles=("runs", "runs", "mixed", "tiny"), quirks=QUIRKS, extra=twin, classify=classify)
     d.loop(3000, 250000)
     group_probe_stratum(ctx, d, ctx.share(96, 4000))
+    saved = d.flags
+    d.flags = "none"
+    nested_times_stratum(ctx, d)
+    d.flags = saved
 
 
 def replay(ctx, case):
